@@ -260,7 +260,7 @@ def run(ctx):
                 elif lay.get(e["key"]) != e["d"]:
                     diff = True
         relaid += diff
-    wide = sum(1 for c in cases if c["inp"].get("wide") == 1)
+    wide = sum(1 for c in cases if c["inp"].get("wide", 0) >= 1)
     ctx.extra["wide_cases_8_to_12_features"] = wide
     ctx.extra["cases_whose_matrix_layout_changes_in_a_round_trip"] = relaid
     if wide == 0 or relaid == 0:
